@@ -294,46 +294,21 @@ Proof.
   apply IHfuel. unfold blen in *. lia.
 Qed.
 
-(* decodeMemberAssignmentV0: the map hint is the only allocation not paid for by consumed bytes;
-   it is at most 48 * (bytes left / 6) *)
-Definition tsafe_at {A} (c : Z) (d : dec A) (b : list Z) : Prop :=
-  match d b with
-  | DOk _ r al => blen r <= blen b /\ 0 <= sumz al <= c * blen b
-  | DErr al => 0 <= sumz al <= c * blen b
-  | DCrash _ => False
-  end.
-
-Lemma safe_tsafe {A} c (d : dec A) b : 0 <= c -> safe_at c d b -> tsafe_at c d b.
+(* decodeMemberAssignmentV0: nothing is allocated on the strength of the topic count; strings and partition slices are
+   paid for by the bytes they consume *)
+Lemma safe_decode_assignment : safe 1 (decode_assignment true).
 Proof.
-  unfold safe_at, tsafe_at. intros Hc. pose proof (blen_nonneg b).
-  destruct (d b) as [a r al|al|w]; auto. pose proof (blen_nonneg r). nia.
+  unfold decode_assignment.
+  apply safe_bind; try lia. { apply safe_d_i32; lia. } intros nt.
+  apply safe_bind; try lia.
+  { intros b. unfold safe_at, make_topics. pose proof (blen_nonneg b). destruct (nt <? -1); cbn [sumz]; lia. } intros _.
+  apply safe_bind; try lia. { intros b. apply topics_loop_safe; lia. } intros m.
+  apply safe_bind; try lia. { apply safe_d_i32; lia. } intros ud.
+  apply safe_bind; try lia. { apply safe_skip_pos; lia. } intros _.
+  apply safe_ret; lia.
 Qed.
 
-Lemma decode_assignment_tsafe b : tsafe_at 9 (decode_assignment true) b.
-Proof.
-  unfold tsafe_at, decode_assignment. unfold bind at 1. unfold d_i32 at 1, of_read.
-  pose proof (blen_nonneg b).
-  destruct (read_i32 b) as [[nt r1]|] eqn:E1; [|cbn [sumz]; lia].
-  apply read_i32_len in E1. pose proof (blen_nonneg r1).
-  unfold bind at 1. unfold make_topics.
-  destruct (nt <? -1); [cbn [sumz app]; lia|].
-  set (hint := map_entry_bytes * Z.max 0 (Z.min nt (blen r1 / 6))).
-  assert (Hh : 0 <= hint <= 8 * blen r1).
-  { unfold hint, map_entry_bytes. pose proof (Z.mul_div_le (blen r1) 6). lia. }
-  clearbody hint.
-  match goal with |- context [bind ?m ?f r1] => assert (Hs : safe_at 1 (bind m f) r1) end.
-  { apply safe_at_bind; try lia. { apply topics_loop_safe; lia. }
-    intros m r2 al2 _. apply safe_bind; try lia. { apply safe_d_i32; lia. }
-    intros ud. apply safe_bind; try lia. { apply safe_skip_pos; lia. }
-    intros. apply safe_ret; lia. }
-  unfold safe_at in Hs.
-  match goal with |- context [bind ?m ?f r1] => destruct (bind m f r1) as [m' r' al'|al'|w] end.
-  - pose proof (blen_nonneg r'). cbn [app sumz]. lia.
-  - cbn [app sumz]. lia.
-  - auto.
-Qed.
-
-Lemma safe_decode_assignment_bytes ab : 0 < ab -> safe 9 (decode_assignment_bytes true ab).
+Lemma safe_decode_assignment_bytes ab : 0 < ab -> safe 1 (decode_assignment_bytes true ab).
 Proof.
   intros Hab b. unfold safe_at, decode_assignment_bytes.
   destruct (next_spec ab b) as (d & r & H1 & H2 & H3 & _); auto. rewrite H1.
@@ -342,12 +317,12 @@ Proof.
   destruct (read_i16 d) as [[ver d1]|] eqn:E; [|cbn [sumz]; lia].
   apply read_i16_len in E.
   destruct (ver <? 0); [unfold fail; cbn [sumz app]; lia|].
-  pose proof (decode_assignment_tsafe d1) as T. unfold tsafe_at in T.
+  pose proof (safe_decode_assignment d1) as T. unfold safe_at in T.
   pose proof (blen_nonneg d1).
-  destruct (decode_assignment true d1) as [m r' al|al|w]; cbn [app]; auto; lia.
+  destruct (decode_assignment true d1) as [m r' al|al|w]; cbn [app]; auto; [pose proof (blen_nonneg r')|]; lia.
 Qed.
 
-Lemma safe_decode_member vv : safe 9 (decode_member true vv).
+Lemma safe_decode_member vv : safe 1 (decode_member true vv).
 Proof.
   unfold decode_member.
   apply safe_bind; try lia. { apply safe_read_string; lia. } intros _.
@@ -379,7 +354,7 @@ Lemma decode_member_consumes vv b m r al : decode_member true vv b = DOk m r al 
 Proof.
   unfold decode_member. intros H. apply bind_ok_inv in H. destruct H as (a & r1 & al1 & al2 & H1 & H2 & _).
   apply read_string_consumes in H1.
-  match type of H2 with ?d r1 = _ => assert (S : safe 9 d) end.
+  match type of H2 with ?d r1 = _ => assert (S : safe 1 d) end.
   { pose proof (safe_decode_member vv) as Sm. unfold decode_member in Sm.
     (* the tail of the member decoder is safe: same proof as above without the first step *)
     apply safe_bind; try lia.
@@ -395,25 +370,25 @@ Proof.
     apply safe_bind; try lia.
     { destruct (ab >? 0) eqn:E; [apply safe_decode_assignment_bytes; lia | apply safe_ret; lia]. }
     intros. apply safe_ret; lia. }
-  apply (safe_ok_len 9) in H2; auto. lia.
+  apply (safe_ok_len 1) in H2; auto. lia.
 Qed.
 
 Definition osafe (bound : Z) (o : outcome) : Prop :=
   match o with Crash _ => False | Done _ al => 0 <= sumz al <= bound end.
 
 Lemma members_loop_safe vv g : forall fuel count b, (length b < fuel)%nat ->
-  osafe (9 * blen b) (members_loop true vv g fuel count b).
+  osafe (blen b) (members_loop true vv g fuel count b).
 Proof.
   induction fuel; intros count b Hf; [lia|].
   cbn [members_loop]. pose proof (blen_nonneg b).
   destruct (count <=? 0); [cbn [osafe sumz]; lia|].
   pose proof (safe_decode_member vv b) as S. unfold safe_at in S.
-  destruct (decode_member true vv b) as [m r al|al|w] eqn:E; auto.
+  destruct (decode_member true vv b) as [m r al|al|w] eqn:E; auto; try (cbn [osafe]; lia).
   - apply decode_member_consumes in E.
     specialize (IHfuel (count - 1) r). unfold osafe in *.
     destruct (members_loop true vv g fuel (count - 1) r) as [w|rs al'].
     + apply IHfuel. unfold blen in *. lia.
-    + rewrite sumz_app. assert (0 <= sumz al' <= 9 * blen r) by (apply IHfuel; unfold blen in *; lia). lia.
+    + rewrite sumz_app. assert (0 <= sumz al' <= blen r) by (apply IHfuel; unfold blen in *; lia). lia.
 Qed.
 
 Lemma safe_decode_meta_header vv : safe 1 (decode_meta_header true vv).
@@ -429,7 +404,7 @@ Proof.
 Qed.
 
 Lemma decode_and_send_metadata_safe vv g vr :
-  osafe (9 * blen vr) (decode_and_send_metadata true vv g vr).
+  osafe (blen vr) (decode_and_send_metadata true vv g vr).
 Proof.
   unfold decode_and_send_metadata. pose proof (blen_nonneg vr).
   pose proof (safe_decode_meta_header vv vr) as Sf. unfold safe_at in Sf.
@@ -442,11 +417,11 @@ Proof.
   pose proof (members_loop_safe vv g (S (length r')) mc r') as L.
   destruct (members_loop true vv g (S (length r')) mc r') as [w|rs al']; cbn [add_allocs osafe] in *.
   - apply L. lia.
-  - rewrite sumz_app. assert (0 <= sumz al' <= 9 * blen r') by (apply L; lia). lia.
+  - rewrite sumz_app. assert (0 <= sumz al' <= blen r') by (apply L; lia). lia.
 Qed.
 
 Lemma decode_group_metadata_safe macc accept kr value :
-  osafe (blen kr + 9 * blen value) (decode_group_metadata true macc accept kr value).
+  osafe (blen kr + blen value) (decode_group_metadata true macc accept kr value).
 Proof.
   unfold decode_group_metadata. pose proof (blen_nonneg kr). pose proof (blen_nonneg value).
   pose proof (safe_read_string 1 (Z.le_refl 1) kr) as Sf. unfold safe_at in Sf.
@@ -521,7 +496,7 @@ Lemma osafe_mono b b' o : b <= b' -> osafe b o -> osafe b' o.
 Proof. unfold osafe. destruct o; auto. lia. Qed.
 
 Lemma process_safe accept key value o :
-  osafe (blen key + 9 * blen value) (process_message accept key value o).
+  osafe (blen key + blen value) (process_message accept key value o).
 Proof.
   unfold process_message, process_message_gen.
   pose proof (blen_nonneg key). pose proof (blen_nonneg value).
@@ -546,12 +521,12 @@ Proof.
   destruct (process_message accept key value o) as [w|rs al]; [destruct Sf | eauto].
 Qed.
 
-(* The sizes handed to make, in bytes (strings n, partition slices 4n, map hint 48n), add up to at most
-   the key length plus nine times the value length; for an offset commit (key version 0 or 1) to at most the
-   message size.  Nothing is allocated on the strength of a number in the message alone. *)
+(* The sizes handed to make / to the string conversion, in bytes (strings n, partition slices 4n), add up to at most the
+   message size: every one of them is paid for by bytes that are present and consumed.  Nothing is allocated on the
+   strength of a number in the message alone. *)
 Theorem process_alloc_bounded : forall (accept : list Z -> bool) (key value : list Z) (o : Z) rs al,
   process_message accept key value o = Done rs al ->
-  0 <= sumz al <= blen key + 9 * blen value.
+  0 <= sumz al <= blen key + blen value.
 Proof.
   intros. pose proof (process_safe accept key value o) as Sf. rewrite H in Sf. exact Sf.
 Qed.
